@@ -1,6 +1,7 @@
 import TF.Proofs.MmrSucc
 import TF.Proofs.MmrMember
 import TF.Proofs.MmrSuccMain
+import TF.Proofs.GenBridgeMmrSucc
 /-!
 # C12 — MMR successor proofs are complete, sound and total
 
@@ -235,5 +236,67 @@ example : verify (fun a b : Nat => a + 2 * b) 0 [5] ⟨1, [4]⟩ ⟨2, [13]⟩ =
 example : verify (fun a b : Nat => a + 2 * b) 0 [5] ⟨1, [3]⟩ ⟨3, [13, 99]⟩ = some true := by decide +kernel
 example : verify (fun a b : Nat => a + 2 * b) 0 [5] ⟨1, [3]⟩ ⟨3, [13, 100]⟩ = some true := by decide +kernel
 example : newFromBatchAppend (fun a b : Nat => a + 2 * b) 0 ⟨1, [3]⟩ [5] = some [5] := by decide +kernel
+
+
+/-! ## regenerated-from-source bridge (BT7)
+
+`MmrSuccessorProof::verify` (`mmr_successor_proof.rs`) is regenerated from the source text on every run into
+`TF/Gen/MmrProofLoops.lean` (`tools/rs2lean_mmr.py`): digests opaque (`D`), `Tip5::hash_pair` the parameter `H`,
+`Digest::default()` the parameter `dflt`, `d0` the value read after a panic (the `_ok` twin is false there); the proof is its
+field `paths`, an `MmrAccumulator` the pair `(leaf_count, peaks)` (both struct items are checked by the translator); the
+accessors `num_leafs()` / `peaks()` are the regenerated `mmra_num_leafs` / `mmra_peaks`, the index function the regenerated
+`leaf_index_to_mt_index_and_peak_index`.  The `for old_peak in old_mmra.peaks()` loop with its `return false` becomes a
+recursion over the peak list returning `Except Bool state`.  `outcome ok v = if ok then v else none`.
+Proofs: `TF/Proofs/GenBridgeMmrSucc.lean`. -/
+section GenBridge
+open TF.GenBridge.MmrPeaks (outcome outcome_eq_some)
+open TF.Gen.Loops (mmrsp_verify mmrsp_verify_ok)
+
+/-- regenerated `MmrSuccessorProof::verify` (the three consistency checks, `strip_top_bit`, the fold of every old peak up
+    to the new peak covering its first leaf reading `paths.get(ap_index).copied().unwrap_or(Digest::default())`, the
+    comparison with `new_mmra.peaks()[new_peak_index]`, the final `ap_index == self.paths.len()`) = hand model; every `H`,
+    every digest list, every pair of accumulators with `u64` leaf counts and arbitrary peak lists -/
+theorem gen_succ_verify_eq_model (d0 : D) (paths : List D) (old new : Acc D) (hoc : old.count < 2 ^ 64)
+    (hnc : new.count < 2 ^ 64) :
+    outcome (mmrsp_verify_ok H d0 dflt paths (old.count, old.peaks) (new.count, new.peaks))
+        (mmrsp_verify H d0 dflt paths (old.count, old.peaks) (new.count, new.peaks))
+      = verify H dflt paths old new :=
+  TF.GenBridge.MmrSucc.gen_succ_verify_eq H d0 dflt paths old.count old.peaks new.count new.peaks hoc hnc
+/-- non-vacuity: an accepted proof; the same with a surplus digest (rejected only by the final
+    `ap_index == self.paths.len()`); a wrong digest; equal accumulators with an empty proof -/
+example : let H := fun a b : Nat => a + 2 * b
+    mmrsp_verify H 0 0 [19, 5, 7] (3, [7, 9]) (6, [45, 22]) = some true ∧
+    mmrsp_verify_ok H 0 0 [19, 5, 7] (3, [7, 9]) (6, [45, 22]) = true ∧
+    mmrsp_verify H 0 0 [19, 5, 7, 1] (3, [7, 9]) (6, [45, 22]) = some false ∧
+    mmrsp_verify H 0 0 [19, 6, 7] (3, [7, 9]) (6, [45, 22]) = some false ∧
+    mmrsp_verify H 0 0 [] (3, [7, 9]) (3, [7, 9]) = some true ∧
+    mmrsp_verify H 0 0 [1] (3, [7, 9]) (3, [7, 9]) = some false := by decide +kernel
+
+/-- **transfer** of `verify_total`, `verify_exact` and `verify_accepts_iff` to the code as it is in the source now: for
+    any two accumulators with `u64` leaf counts and a new peak list shorter than 2^32 the regenerated `verify` does not
+    panic (its `_ok` flag is true: no `ilog2(0)`, no failed `assert!`, no index out of bounds, no arithmetic overflow),
+    terminates within its fuel, computes the reference verifier, and accepts exactly the proofs that split into one
+    segment per old peak folding it into the new peak that covers its first leaf -/
+theorem gen_succ_verify_transfer (d0 : D) (paths : List D) (old new : Acc D) (hoc : old.count < 2 ^ 64)
+    (hnc : new.count < 2 ^ 64) (hlen : new.peaks.length < 2 ^ 32) :
+    mmrsp_verify_ok H d0 dflt paths (old.count, old.peaks) (new.count, new.peaks) = true ∧
+    mmrsp_verify H d0 dflt paths (old.count, old.peaks) (new.count, new.peaks)
+      = some (succVerify H paths old.count old.peaks new.count new.peaks) ∧
+    (mmrsp_verify H d0 dflt paths (old.count, old.peaks) (new.count, new.peaks) = some true ↔
+      old.count ≤ new.count ∧ TF.popCount new.count = new.peaks.length ∧ TF.popCount old.count = old.peaks.length ∧
+      ∃ segs : List (List D), segs.flatten = paths ∧ segs.length = old.peaks.length ∧
+        ∀ (i : Nat) (p : D) (q : Nat × Nat) (seg : List D),
+          old.peaks[i]? = some p → (peakPos old.count)[i]? = some q → segs[i]? = some seg →
+          q.1 ≤ (locate new.count q.2).1 ∧ seg.length = (locate new.count q.2).1 - q.1 ∧
+          new.peaks[(locate new.count q.2).2.2]? = some (foldBlk H (q.2 / 2 ^ q.1) p seg)) := by
+  have hg := gen_succ_verify_eq_model H dflt d0 paths old new hoc hnc
+  have he := verify_exact H dflt paths old new hoc hnc hlen
+  rw [he] at hg
+  obtain ⟨h1, h2⟩ := outcome_eq_some hg
+  refine ⟨h1, h2, ?_⟩
+  rw [← verify_accepts_iff H dflt paths old new hoc hnc hlen, he, h2]
+example : (18446744073709551615 : Nat) < 2 ^ 64 ∧ ([7, 9] : List Nat).length < 2 ^ 32 := by decide
+
+end GenBridge
 
 end TF.C12
